@@ -58,8 +58,9 @@ def t_args(t_none, i_kind):
         cover("accepted")
 
 
-def _pong_responder(answer_upto, latency):
-    """server answers ping number k (0-based) iff k < answer_upto, after `latency`"""
+def _pong_responder(answer_upto, latency, coalesce=False):
+    """server answers ping number k (0-based) iff k < answer_upto, after `latency`; coalesce: the pong travels in the same TCP
+    segment / TLS record BEHIND a data frame (a server flushing its queue in one write)"""
     st = {"n": 0, "buf": b""}
 
     def hook(server, data):
@@ -68,7 +69,7 @@ def _pong_responder(answer_upto, latency):
             st["n"] += 1
             server.net.ping_times.append(server.k.now)
             if k < answer_upto:
-                server.k.after(latency, lambda: server.deliver(server_frame(1, 10, b"")))
+                server.k.after(latency, lambda: server.deliver((server_frame(1, 2, b"q") if coalesce else b"") + server_frame(1, 10, b"")))
     return hook
 
 
@@ -120,7 +121,7 @@ def t_silent(I, T, answered, ndata, ratio=4):
     cover("silent")
 
 
-def t_live(I, T, ndata, payload="hb", yield_on_send=False, ratio=4):
+def t_live(I, T, ndata, payload="hb", yield_on_send=False, ratio=4, tls=False, coalesce=False):
     """peer answers every ping after a symbolic latency in [0, T); data frames at symbolic times: never a timeout"""
     I, T = _settings(I, T, ratio)
     lat = sx.sym_real("lat")
@@ -132,8 +133,8 @@ def t_live(I, T, ndata, payload="hb", yield_on_send=False, ratio=4):
         g = sx.sym_real("g%d" % j)
         sx.assume(sx.And(g > 0, g < horizon / max(1, ndata)))
         script.append((g, server_frame(1, 2, b"d")))
-    spec = {"script": script, "on_frame_bytes": _pong_responder(10 ** 6, lat)}
-    run = AppRun([spec], step_budget=4000)
+    spec = {"script": script, "on_frame_bytes": _pong_responder(10 ** 6, lat, coalesce)}
+    run = AppRun([spec], step_budget=4000, tls=tls, url="wss://h.example/x" if tls else "ws://h.example/x")
     run.net.ping_times = []
     run.net.yield_on_send = yield_on_send
     run.k.at(run.k.t0 + horizon, lambda: [s.deliver(close_frame(1000)) for s in run.net.socks if not s.closed])
@@ -199,6 +200,9 @@ def obligations(tier):
     live = [dict(I=i, T=t, ndata=n) for (i, t) in pairs for n in ((0, 1, 2) if thorough else (0, 1))]
     # the same with every transport write a preemption point (the reader may handle an immediate pong before the ping thread continues)
     live += [dict(I=i, T=t, ndata=n, yield_on_send=True) for (i, t) in pairs for n in ((0, 1) if thorough else (0,))]
+    # TLS transport (SSLDispatcher), and pongs that arrive in one segment / record behind a data frame
+    for (i, t) in (pairs if thorough else pairs[::4]):
+        live += [dict(I=i, T=t, ndata=(1 if thorough else 0), tls=tl, coalesce=co) for tl in (False, True) for co in (False, True) if tl or co]
     R = 6 if thorough else 4
     silent_sym = [dict(I="sym", T="sym", answered=a, ndata=n, ratio=R) for a in (0, 1) for n in (0, 1)]
     live_sym = [dict(I="sym", T="sym", ndata=n, ratio=R) for n in ((0, 1) if thorough else (0,))] + [dict(I="sym", T="sym", ndata=0, ratio=R, yield_on_send=True)]
@@ -221,6 +225,6 @@ def obligations(tier):
                           "symbolic times (solver reals); horizon 6 intervals after the first unanswered ping" % (2 if thorough else 1, 2 if thorough else 1),
                    must_cover=["silent"], budget_s=2400, step_budget=200000, kernel=["WebSocketApp._send_ping", "check", "Dispatcher.read", "_start_ping_thread", "_stop_ping_thread"]),
         Obligation("T-live", t_live, live, bounds="15 grid pairs; every ping answered after a latency that is a solver real in [0,T); 0..%d data frames at symbolic "
-                   "times; 3 pings" % (2 if thorough else 1), must_cover=["live"], budget_s=2400, step_budget=200000,
-                   kernel=["WebSocketApp._send_ping", "check", "read (pong branch)", "Dispatcher.read"]),
+                   "times; 3 pings; plain and TLS transport, pong alone or behind a data frame in the same segment / record" % (2 if thorough else 1), must_cover=["live"], budget_s=2400, step_budget=200000,
+                   kernel=["WebSocketApp._send_ping", "check", "read (pong branch)", "Dispatcher.read", "SSLDispatcher.read", "SSLDispatcher.select"]),
     ]
